@@ -45,7 +45,11 @@ contract(MD + "generate_script_block", pure_fn="script_block_of",
          },
          may_raise=["ValueError"],
          oracle="c15_generate_script_block",
-         pools={"len": [0, 1, 2, 2, 3], "str": ["A", "B", "C", "l1", "l2"]},
+         pools={"len": [0, 1, 2, 3, 3, 4, 4], "str": ["A", "B", "C", "l1", "l2"],
+                "JobScriptSpecification.name": [{"t": "str", "v": x} for x in ["A", "B", "C"]],
+                "JobScriptSpecification.script": [{"t": "list", "v": [{"t": "str", "v": y} for y in x]} for x in [["l1"], ["l2"], ["l1", "l2"], [], ["l1"]]],
+                "JobScriptSpecification.depends_on": [{"t": "list", "v": [{"t": "str", "v": y} for y in x]}
+                                                      for x in [[], [], ["A"], ["B"], ["C"], ["A", "A"], ["A", "B"], ["B", "A", "B"], ["A", "C"], ["C", "B"], ["D"], ["B", "B", "C"]]]},
          needs={"dependencies_sent_and_earlier": ["I1a.names", "I1b.same_keys", "I1c.first", "I1e.deps_merged", "W1.seen_known", "W5.deps_first"],
                 "missing_dependency": [],
                 "cycle": ["C2.unchanged", "C3.blocked", "I1b.same_keys", "I2.present", "W1.seen_known", "W0.count"]},
